@@ -203,7 +203,16 @@ func generate(prop, tier string, seed uint64, w *bufio.Writer) {
 		for k := 0; k < 2 && tier == "thorough"; k++ {
 			e.emit("xr-huge-block", op1("enc", packetSx(genHugeXR(r, r.intn(4)))))
 		}
-	case "C04", "C01":
+	case "C04":
+		// RFC-valid encodings with a 64 KiB+ block and the value they must decode to (an unknown block type with 65 536+
+		// octets, a packet-receipt-times block): minutes of model time each, thorough tier only
+		for _, k := range []int{3, 0} {
+			if tier == "thorough" {
+				b, x := hugeXRVariant(r, k)
+				e.emit("xr-huge-variant", opVariant("ExtendedReport", b, x))
+			}
+		}
+	case "C01":
 		for k := 0; k < 2 && tier == "thorough"; k++ {
 			e.emit("xr-huge-block", opDec("ExtendedReport", hugeXRBytes(r, k)))
 		}
